@@ -172,6 +172,8 @@ def routing_cvrp(ctx, taped: bool):
                                                                     "model": str(cap)})
         if r["fits"] != "1":
             V(ctx, "cvrp-demand-above-capacity", "model: a generated demand exceeds the capacity", {"params": params, "reply": r["_raw"]})
+        ctx.sample({"case": "CVRPGenerator on taped dyadic draws vs Gen.cvrpDemand / cvrpCapacity", "params": params, "draws u=k/q": [e_dem["k"][:4], e_dem["q"]],
+                    "model_demand": dm[:4], "model_capacity": str(cap), "real_demand/capacity": real[:4]}, cap=1)
         ctx.case(("cvrp-tape", n, lo, hi, minD, maxD, override, tuple(e_dem["k"][:8])))
     else:
         seed = rng.randrange(1 << 30)
@@ -248,13 +250,16 @@ def routing_simple(ctx, taped: bool):
         mode = rng.choice(["single", "multiple"])
         a = rng.choice([1, 2])
         b = a + rng.choice([0, 2, 4])
-        params = dict(num_loc=n, min_loc=lo, max_loc=hi, num_depot=nd, depot_mode=mode, min_capacity=a, max_capacity=b)
+        lw0, lw1 = rng.choice([(1.0, 1.0), (0.5, 2.0), (2.0, 4.0)])
+        params = dict(num_loc=n, min_loc=lo, max_loc=hi, num_depot=nd, depot_mode=mode, min_capacity=a, max_capacity=b,
+                      min_lateness_weight=lw0, max_lateness_weight=lw1)
         with quiet():
             g = MDCPDPGenerator(**params)
         td = run(g)
         n2 = n + (n % 2)
         check_keys(ctx, which, td, {"locs": (n2, 2), "depot": (nd, 2), "capacity": (1,), "lateness_weight": (1,)}, B, params)
         check_bounds(ctx, which, "capacity", td["capacity"], a, b, params)
+        check_bounds(ctx, which, "lateness_weight", td["lateness_weight"], lw0, lw1, params)
         check_bounds(ctx, which, "locs", td["locs"], lo, hi, params)
         check_bounds(ctx, which, "depot", td["depot"], lo, hi, params)
         if mode == "single" and not bool((td["depot"] == td["depot"][:, :1]).all()):
@@ -282,24 +287,27 @@ def routing_simple(ctx, taped: bool):
     elif which == "smtwtp":
         from rl4co.envs.scheduling.smtwtp.generator import SMTWTPGenerator
         span = rng.choice([None, 4.0, 8.0])
-        params = dict(num_job=n, max_time_span=span)
+        s0 = rng.choice([0, 0, 1.0])
+        w0, w1 = rng.choice([(0, 1), (0, 1), (0.5, 2.0), (1.0, 1.0)])
+        p0, p1 = rng.choice([(0, 1), (0, 1), (0.25, 0.75), (2.0, 4.0)])
+        params = dict(num_job=n, min_time_span=s0, max_time_span=span, min_job_weight=w0, max_job_weight=w1, min_process_time=p0, max_process_time=p1)
         td = run(SMTWTPGenerator(**params))
         check_keys(ctx, which, td, {"job_due_time": (n + 1,), "job_weight": (n + 1,), "job_process_time": (n + 1,)}, B, params)
         top = n / 2 if span is None else span
-        check_bounds(ctx, which, "job_due_time", td["job_due_time"], 0.0, top, params)
-        check_bounds(ctx, which, "job_weight", td["job_weight"], 0.0, 1.0, params)
-        check_bounds(ctx, which, "job_process_time", td["job_process_time"], 0.0, 1.0, params)
-        for k_ in ("job_due_time", "job_weight", "job_process_time"):
+        if top < s0:
+            top = s0
+        rngs = {"job_due_time": (s0, top), "job_weight": (w0, w1), "job_process_time": (p0, p1)}
+        for k_, (l_, h_) in rngs.items():
+            check_bounds(ctx, which, k_, td[k_][:, 1:], min(l_, h_), max(l_, h_), params)
             if bool((td[k_][:, 0] != 0).any()):
                 V(ctx, "smtwtp-dummy-job-nonzero", f"`{k_}` of the dummy job 0 is not 0", {"params": params})
         if taped:
             es = [e for e in tp.log if e["kind"] == "uniform_"]
-            for e, key, h in zip(es, ("job_due_time", "job_weight", "job_process_time"), (top, 1.0, 1.0)):
-                t = td[key].clone()
-                ks = list(e["k"])
-                exp = [0.0 if (j % (n + 1)) == 0 else float(np.float32(np.float32(k / e["q"]) * np.float32(h))) for j, k in enumerate(ks)]
-                if t.flatten().tolist() != exp:
-                    ctx.disagreement(f"smtwtp: {key} vs u·hi", {"params": params})
+            for e, key in zip(es, ("job_due_time", "job_weight", "job_process_time")):
+                l_, h_ = rngs[key] if key != "job_due_time" else (s0, n / 2 if span is None else span)
+                exp = [0.0 if (j % (n + 1)) == 0 else float(np.float32(l_) + np.float32(k / e["q"]) * np.float32(h_ - l_)) for j, k in enumerate(e["k"])]
+                if td[key].flatten().tolist() != exp:
+                    ctx.disagreement(f"smtwtp: {key} vs lo + u·(hi − lo)", {"params": params})
     elif which == "ffsp":
         from rl4co.envs.scheduling.ffsp.generator import FFSPGenerator
         a = rng.choice([1, 2])
@@ -343,7 +351,8 @@ def routing_simple(ctx, taped: bool):
     elif which == "pctsp":
         from rl4co.envs.routing.pctsp.generator import PCTSPGenerator
         pf = rng.choice([3.0, 1.0, 2.0])
-        params = dict(num_loc=n, min_loc=lo, max_loc=hi, penalty_factor=pf)
+        dd = rng.choice([None, None, "uniform"])
+        params = dict(num_loc=n, min_loc=lo, max_loc=hi, penalty_factor=pf, depot_distribution=dd)
         with quiet():
             g = PCTSPGenerator(**params)
         td = run(g)
@@ -356,8 +365,12 @@ def routing_simple(ctx, taped: bool):
         if bool((td["stochastic_prize"] > 2 * td["deterministic_prize"] * (1 + 1e-6)).any()) or bool((td["stochastic_prize"] < 0).any()):
             V(ctx, "pctsp-stochastic-prize-range", "stochastic prize outside [0, 2·deterministic prize]", {"params": params})
         check_bounds(ctx, which, "locs", td["locs"], lo, hi, params)
-        if taped:
+        check_bounds(ctx, which, "depot", td["depot"], lo, hi, params)
+        if taped and dd is None:
             tape_coords(ctx, which, tp.take("rand", 0), torch.cat((td["depot"][:, None], td["locs"]), 1), lo, hi, params)
+        elif taped:
+            tape_coords(ctx, which, tp.take("rand", 0), td["depot"], lo, hi, params)
+            tape_coords(ctx, which, tp.take("rand", 1), td["locs"], lo, hi, params)
     ctx.case((which, taped, n, lo, hi, seed if not taped else tuple(tp.log[0].get("k", tp.log[0].get("v"))[:6])))
 
 
@@ -477,6 +490,55 @@ def routing_tables(ctx):
     ctx.count("tables:sizes", len(sizes))
 
 
+SPECIAL_DISTS = [("cluster", dict(n_cluster=3)), ("cluster", dict(n_cluster=1)), ("mixed", dict(n_cluster_mix=1)), ("mixed", dict(n_cluster_mix=2)),
+                 ("mix_distribution", dict(n_cluster=3, n_cluster_mix=1)), ("gaussian_mixture", dict(num_modes=0, cdist=0)),
+                 ("gaussian_mixture", dict(num_modes=1, cdist=1)), ("gaussian_mixture", dict(num_modes=3, cdist=10)),
+                 ("gaussian_mixture", dict(num_modes=7, cdist=50)), ("mix_multi_distributions", {})]
+
+
+def samplers_steered(ctx):
+    """every special location sampler through every generator that takes `loc_distribution`, with the Gaussian draws
+    steered into the tails (±6 … ±40 σ, `Tape.tail`): the documented unit square must hold for *every* draw, which
+    i.i.d. sampling would need ~10⁴ instances to probe (a tail leaves [0,1] with probability ≈ 1.5e-4 per coordinate)"""
+    from rl4co.envs.routing.tsp.generator import TSPGenerator
+    from rl4co.envs.routing.cvrp.generator import CVRPGenerator
+    from rl4co.envs.routing.op.generator import OPGenerator
+    from rl4co.envs.routing.pctsp.generator import PCTSPGenerator
+    from rl4co.envs.routing.pdp.generator import PDPGenerator
+    from rl4co.envs.routing.mtsp.generator import MTSPGenerator
+    from rl4co.envs.routing.svrp.generator import SVRPGenerator
+    from rl4co.envs.routing.mdcpdp.generator import MDCPDPGenerator
+    from rl4co.envs.graph.flp.generator import FLPGenerator
+
+    rng = ctx.rng
+    gens = [("tsp", TSPGenerator), ("cvrp", CVRPGenerator), ("op", OPGenerator), ("pctsp", PCTSPGenerator), ("pdp", PDPGenerator),
+            ("mtsp", MTSPGenerator), ("svrp", SVRPGenerator), ("mdcpdp", MDCPDPGenerator), ("flp", FLPGenerator)]
+    reps = ctx.budget(2, 12)
+    for dname, kw in SPECIAL_DISTS:
+        for gname, G_ in gens:
+            for rep in range(reps):
+                n = rng.choice([4, 6, 9, 20])
+                B = rng.choice([1, 3, 6])
+                params = dict(generator=gname, num_loc=n, loc_distribution=dname, B=B, **kw)
+                tp = Tape(rng, bits=6)
+                tp.tail = rng.choice([0.1, 0.3, 0.6])
+                try:
+                    with tp:
+                        with quiet():
+                            td = G_(num_loc=n, loc_distribution=dname, **kw)([B])
+                except Exception as e:  # noqa: BLE001
+                    V(ctx, f"sampler-{dname}-raises", f"{gname} generator with loc_distribution={dname!r} raises {type(e).__name__}: {str(e)[:120]}", {"params": params})
+                    continue
+                zs = [z for e in tp.log if e["kind"] == "normal" for z in e["z"]]
+                locs = td["locs"] if "depot" not in td.keys() or td["depot"].dim() != 2 else torch.cat((td["depot"][:, None], td["locs"]), 1)
+                ok = check_bounds(ctx, f"{gname}[{dname}]", "locs", locs, 0.0, 1.0, dict(params, extreme_normal_draws=sorted(set(zs))[:3] + sorted(set(zs))[-3:]))
+                ctx.count(f"sampler-steered:{dname}:{'tail-draws' if any(abs(z) >= 6 for z in zs) else 'no-normal-draws' if not zs else 'body-only'}")
+                if ok and rep == 0 and gname == "tsp":
+                    ctx.sample({"case": "special sampler, Gaussian draws steered into the tails", "params": params,
+                                "normal_draws(σ)": zs[:6], "locs_min_max": [float(locs.min()), float(locs.max())], "checked": "0 ≤ locs ≤ 1"}, cap=1)
+                ctx.case(("steered", dname, gname, n, B, tuple(zs[:4])))
+
+
 def run_routing(ctx):
     routing_tables(ctx)
     N = ctx.budget(240, 12000)
@@ -489,6 +551,7 @@ def run_routing(ctx):
             guarded(ctx, "routing-generator", routing_simple, taped)
         else:
             guarded(ctx, "op-generator", routing_op, taped)
+    samplers_steered(ctx)
     # special samplers: documented to live in the unit square
     from rl4co.envs.routing.tsp.generator import TSPGenerator
     from rl4co.envs.routing.cvrp.generator import CVRPGenerator
@@ -559,6 +622,12 @@ def tw_cvrptw(ctx, taped: bool):
     max_loc, max_time = rng.choice([(150.0, 480), (150.0, 480), (100.0, 300), (16.0, 64), (1.0, 480), (150.0, 426)])
     B = rng.choice([1, 2, 3])
     params = dict(num_loc=n, max_loc=max_loc, max_time=max_time, scale=scale)
+    min_loc = 0.0
+    if not taped and rng.random() < 0.5:   # further options the taped stream leaves at their defaults
+        min_loc = rng.choice([0.0, max_loc / 4, max_loc / 2])
+        mnd, mxd = rng.choice([(1, 10), (2, 4), (5, 5)])
+        params.update(min_loc=min_loc, min_demand=mnd, max_demand=mxd, capacity=rng.choice([None, float(mxd), 64.0]),
+                      depot_distribution=rng.choice([None, "uniform"]))
     ctx.count(f"cvrptw:{'scaled' if scale else 'unscaled'}:{'tape' if taped else 'real'}")
     S = 1 << 40  # ticks per time unit for the model (every float32 distance ≥ 2^-16 is a whole number of ticks)
     if taped:
@@ -619,6 +688,9 @@ def tw_cvrptw(ctx, taped: bool):
             expd = (0.0, float(np.float32(dm[1]) / np.float32(max_time))) if scale else (0.0, float(dm[1]))
             if dep != expd:
                 ctx.disagreement("cvrptw: depot window", {"params": params, "real": dep, "model": expd})
+        ctx.sample({"case": "CVRPTWGenerator windows on taped draws vs Gen.Cvrptw.window", "params": params, "dist": [round(float(x), 3) for x in dist[0][:3]],
+                    "draws k1,k2 / q": [es[1]["k"][1:4], es[2]["k"][1:4], q], "model_windows": list(zip(lo_m[:3], hi_m[:3])),
+                    "real_windows": td["time_windows"][-1][1:4].tolist(), "WindowOk": r["ok"][:3]}, cap=1)
         ctx.case(("cvrptw-tape", n, scale, max_loc, max_time, tuple(es[1]["k"][:6])))
     else:
         seed = rng.randrange(1 << 30)
@@ -631,7 +703,7 @@ def tw_cvrptw(ctx, taped: bool):
                                        "time_windows": (n + 1, 2)}, B, params)
         f = max_time if scale else 1.0
         locs = torch.cat((td["depot"][:, None], td["locs"]), 1).double() * f
-        check_bounds(ctx, "cvrptw", "locs", locs, 0.0, max_loc * (1 + 1e-6), params)
+        check_bounds(ctx, "cvrptw", "locs", locs, min_loc * (1 - 1e-6), max_loc * (1 + 1e-6), params)
         tw = td["time_windows"].double() * f
         dur = td["durations"].double() * f
         d = (locs - locs[:, :1]).norm(dim=-1)
@@ -672,21 +744,52 @@ def preset_allows(preset: str, keep: str) -> bool:
     return name == preset
 
 
+def mtvrp_config(rng):
+    """a legal non-default MTVRP generator configuration inside the parameter conditions of the window / limit theorems
+    (2·√2·(max_loc−min_loc)/speed ≤ max_time − 0.38, 2·√2·(max_loc−min_loc) < distance_limit); half of the time the defaults"""
+    if rng.random() < 0.4:
+        return {}
+    while True:
+        lo, hi = rng.choice([(0.0, 1.0), (0.0, 0.5), (0.25, 0.75), (0.0, 2.0)])
+        speed = rng.choice([1.0, 2.0, 0.5, 4.0])
+        T = rng.choice([4.6, 6.0, 8.0, 16.0])
+        L = rng.choice([3.0, 4.0, 10.0])
+        dmax = math.sqrt(2) * (hi - lo)
+        if 2 * dmax / speed <= T - 0.38 - 1e-6 and 2 * dmax < L - 1e-6:
+            break
+    minD, maxD = rng.choice([(1, 10), (1, 5), (3, 3), (2, 9)])
+    minB, maxB = rng.choice([(1, 10), (2, 4), (7, 7)])
+    cfg = dict(min_loc=lo, max_loc=hi, speed=speed, max_time=T, distance_limit=L, min_demand=minD, max_demand=maxD,
+               min_backhaul=minB, max_backhaul=maxB, backhaul_ratio=rng.choice([0.2, 0.5, 0.75]),
+               capacity=rng.choice([None, 50.0, 16.0]), scale_demand=rng.random() < 0.7)
+    return cfg
+
+
 def tw_mtvrp(ctx, taped: bool):
     from rl4co.envs.routing.mtvrp.generator import MTVRPGenerator, get_vehicle_capacity
 
     rng = ctx.rng
     n = rng.choice([1, 2, 3, 5, 8, 13, 20, 21, 50])
-    preset = rng.choice(MTVRP_PRESETS)
+    preset = rng.choice(MTVRP_PRESETS + [None])
     B = rng.choice([1, 2, 4])
     use_comb = True if preset != "all" else rng.random() < 0.7
-    params = dict(num_loc=n, variant_preset=preset, use_combinations=use_comb)
-    ctx.count(f"mtvrp:{preset}:{'tape' if taped else 'real'}")
+    cfg = mtvrp_config(rng)
+    params = dict(num_loc=n, variant_preset=preset, use_combinations=use_comb, **cfg)
+    if preset is None:
+        params["subsample"] = False   # every feature present (OVRPBLTW), no subsampling
+    ctx.count(f"mtvrp:{preset}:{'tape' if taped else 'real'}:{'default' if not cfg else 'non-default'}")
     with quiet():
         g = MTVRPGenerator(**params)
-    cap = get_vehicle_capacity(n)
-    a_, b_, c_ = Fraction(3, 20), Fraction(9, 50), Fraction(1, 5)
-    T, v = Fraction(23, 5), Fraction(1)
+    lo, hi = cfg.get("min_loc", 0.0), cfg.get("max_loc", 1.0)
+    speed, Tmax, limit = cfg.get("speed", 1.0), cfg.get("max_time", 4.6), cfg.get("distance_limit", 3.0)
+    minD, maxD, minB, maxB = cfg.get("min_demand", 1), cfg.get("max_demand", 10), cfg.get("min_backhaul", 1), cfg.get("max_backhaul", 10)
+    ratio = Fraction(str(cfg.get("backhaul_ratio", 0.2)))
+    scale = cfg.get("scale_demand", True)
+    cap = cfg.get("capacity") or get_vehicle_capacity(n)
+    capm = int(ask(ctx, [f"gen.mtvrpcap {n}"])[0]["cap"])
+    if capm != get_vehicle_capacity(n):
+        ctx.disagreement("mtvrp: vehicle capacity vs Gen.Mtvrp.vehicleCapacity", {"n": n, "real": get_vehicle_capacity(n), "model": capm})
+    T, v = Fraction(str(Tmax)), Fraction(str(speed))
     if taped:
         with Tape(rng, bits=rng.choice([4, 6, 8])) as tp:
             with quiet():
@@ -699,14 +802,15 @@ def tw_mtvrp(ctx, taped: bool):
         e_loc, e_l, e_b, e_is, e_s, e_len, e_t = tp.log[:7]
         sub = tp.log[7] if len(tp.log) > 7 else None
         q = e_loc["q"]
-        exp_locs = [k / q for k in e_loc["k"]]
+        exp_locs = [float(np.float32(lo) + np.float32(k / q) * np.float32(hi - lo)) for k in e_loc["k"]]
         if td["locs"].flatten().tolist() != exp_locs:
-            ctx.disagreement("mtvrp: locs vs u·(max−min)", {"params": params})
+            ctx.disagreement("mtvrp: locs vs min + u·(max−min)", {"params": params})
         # keep mask per row from the model
-        keeps = []
         lines = []
         for bi in range(B):
-            if preset == "all" and use_comb:
+            if preset is None:
+                lines.append("gen.keep ovrpbltw named")
+            elif preset == "all" and use_comb:
                 ps = sub["k"][bi * 4:(bi + 1) * 4]
                 lines.append(f"gen.keep {preset} comb {sub['q']} " + " ".join(map(str, ps)))
             elif preset in ("all", "cvrp", "single_feat", "single_feat_otw"):
@@ -721,22 +825,27 @@ def tw_mtvrp(ctx, taped: bool):
                 supp_real = [k for k, w in enumerate(sub["probs"][bi]) if w > 0]
                 if supp_model != supp_real:
                     ctx.disagreement("mtvrp: Categorical support vs Gen.Mtvrp.catSupport", {"params": params, "real": supp_real, "model": supp_model})
-            if preset not in ("all", "single_feat", "single_feat_otw") and r["name"] != preset:
+            if preset not in ("all", "single_feat", "single_feat_otw", None) and r["name"] != preset:
                 V(ctx, "mtvrp-preset-name-mismatch", f"preset {preset!r} enables the features of {r['name']!r}", {"params": params})
         # demands
         for bi in range(B):
             sl = slice(bi * n, (bi + 1) * n)
             trip = " | ".join(f"{pl} {pb} {pr}" for pl, pb, pr in zip(e_l["k"][sl], e_b["k"][sl], e_is["k"][sl]))
             remove_b = 0 if keeps[bi][3] == "1" else 1
-            r = ask(ctx, [f"gen.mtvrpdem 1 10 1 10 1 5 {q} {remove_b} | {trip}"])[0]
-            capm = int(ask(ctx, [f"gen.mtvrpcap {n}"])[0]["cap"])
-            if capm != cap:
-                ctx.disagreement("mtvrp: vehicle capacity vs Gen.Mtvrp.vehicleCapacity", {"n": n, "real": cap, "model": capm})
+            r = ask(ctx, [f"gen.mtvrpdem {minD} {maxD} {minB} {maxB} {ratio.numerator} {ratio.denominator} {q} {remove_b} | {trip}"])[0]
             for key, fld in (("demand_linehaul", "line"), ("demand_backhaul", "back")):
-                exp = [0.0] + [float(np.float32(x) / np.float32(capm)) for x in ints(r[fld])]
+                if scale:
+                    exp = [0.0] + [float(np.float32(x) / np.float32(cap)) for x in ints(r[fld])]
+                else:
+                    exp = [0.0] + [float(x) for x in ints(r[fld])]
                 if td[key][bi].tolist() != exp:
                     ctx.disagreement(f"mtvrp: {key} vs Gen.Mtvrp.demands/defaultBackhaul",
                                      {"params": params, "row": bi, "real": td[key][bi].tolist(), "model": exp, "keep": keeps[bi]})
+            exp_vc = 1.0 if scale else float(cap)
+            if td["vehicle_capacity"][bi].item() != exp_vc or td["capacity_original"][bi].item() != float(cap):
+                ctx.disagreement("mtvrp: vehicle_capacity / capacity_original", {"params": params, "real": [td["vehicle_capacity"][bi].item(), td["capacity_original"][bi].item()]})
+        if set(td["speed"].flatten().tolist()) != {f32(speed)}:
+            ctx.disagreement("mtvrp: speed", {"params": params})
         # windows (float32 arithmetic with non-dyadic constants: relative tolerance), features
         d0 = (td["locs"][:, 1:] - td["locs"][:, :1]).norm(p=2, dim=-1)
         for bi in range(B):
@@ -744,7 +853,7 @@ def tw_mtvrp(ctx, taped: bool):
             if bool(td["open_route"][bi].item()) != (k[0] == "1"):
                 ctx.disagreement("mtvrp: open_route vs keep mask", {"params": params, "row": bi, "keep": k})
             lim = td["distance_limit"][bi].item()
-            if (lim != float("inf")) != (k[2] == "1") or (k[2] == "1" and lim != 3.0):
+            if (lim != float("inf")) != (k[2] == "1") or (k[2] == "1" and lim != f32(limit)):
                 ctx.disagreement("mtvrp: distance_limit vs keep mask", {"params": params, "row": bi, "keep": k, "real": lim})
             tw = td["time_windows"][bi]
             if k[1] == "0":
@@ -758,16 +867,23 @@ def tw_mtvrp(ctx, taped: bool):
                 secs.append(f"{d.numerator} {d.denominator} {e_s['k'][bi * n + j]} {q} {e_len['k'][bi * n + j]} {q} {e_t['k'][bi * n + j]} {q}")
             if not secs:
                 continue
-            r = ask(ctx, ["gen.mtvrptw 3 20 9 50 1 5 23 5 1 1 | " + " | ".join(secs)])[0]
+            r = ask(ctx, [f"gen.mtvrptw 3 20 9 50 1 5 {T.numerator} {T.denominator} {v.numerator} {v.denominator} | " + " | ".join(secs)])[0]
             for j, item in zip(js, r["tw"].split(",")):
                 st, en, sv = (Fraction(int(x.split("/")[0]), int(x.split("/")[1])) for x in item.split(":"))
                 real = (tw[j + 1, 0].item(), tw[j + 1, 1].item(), td["service_time"][bi, j + 1].item())
                 for nm, m_, r_ in zip(("start", "end", "service"), (st, en, sv), real):
-                    if abs(float(m_) - r_) > 2e-5 * max(1.0, abs(float(m_))):
+                    if abs(float(m_) - r_) > 3e-5 * max(1.0, abs(float(m_))):
                         ctx.disagreement(f"mtvrp: tw {nm} vs Gen.Mtvrp model", {"params": params, "row": bi, "j": j, "real": r_, "model": float(m_)})
-            if tuple(tw[0].tolist()) != (0.0, f32(4.6)):
+                # the property on the real outcome (witness): reachable and leaving time to return, in travel-time units d/v
+                dv = float(Fraction(d0[bi, j].item()) / v)
+                if not (real[0] < real[1]) or dv > real[1] + 1e-4 or real[1] + real[2] + dv > Tmax + 1e-4:
+                    V(ctx, "mtvrp-window-not-wf", f"window [{real[0]:.5f},{real[1]:.5f}] service {real[2]:.5f}, travel time {dv:.5f}, max_time {Tmax}: "
+                      "not ordered / unreachable / no time to return", {"params": params, "row": bi, "j": j})
+            if tuple(tw[0].tolist()) != (0.0, f32(Tmax)):
                 ctx.disagreement("mtvrp: depot window", {"params": params, "real": tw[0].tolist()})
-        ctx.case(("mtvrp-tape", n, preset, use_comb, tuple(e_l["k"][:6])))
+        ctx.sample({"case": "MTVRPGenerator on taped draws vs Gen.Mtvrp (demands, keep mask, windows)", "params": params, "keep O,TW,L,B": keeps,
+                    "tw_row0": td["time_windows"][0][:3].tolist(), "speed": speed, "max_time": Tmax}, cap=2)
+        ctx.case(("mtvrp-tape", n, preset, use_comb, tuple(sorted((k_, str(v_)) for k_, v_ in cfg.items())), tuple(e_l["k"][:6])))
     else:
         seed = rng.randrange(1 << 30)
         seed_all(seed)
@@ -778,19 +894,25 @@ def tw_mtvrp(ctx, taped: bool):
                 "time_windows": (n + 1, 2), "service_time": (n + 1,), "vehicle_capacity": (1,), "capacity_original": (1,),
                 "open_route": (1,), "speed": (1,)}
         check_keys(ctx, "mtvrp", td, keys, B, params)
-        check_bounds(ctx, "mtvrp", "locs", td["locs"], 0.0, 1.0, params)
+        check_bounds(ctx, "mtvrp", "locs", td["locs"], lo, hi, params)
+        vc = td["vehicle_capacity"][:, :1].double()
         for key in ("demand_linehaul", "demand_backhaul"):
-            raw = td[key].double() * cap
+            raw = td[key].double() * (cap if scale else 1.0)
             if not torch.allclose(raw, raw.round(), atol=1e-4):
                 V(ctx, "mtvrp-demand-not-integer", f"{key}·capacity is not an integer", {"params": params})
-            check_bounds(ctx, "mtvrp", key, td[key], 0.0, 1.0, params)
-            nz = raw.round()[raw.round() != 0]
-            if nz.numel() and (nz.min() < 1 or nz.max() > 10):
-                V(ctx, "mtvrp-demand-out-of-range", f"{key} outside [1,10]", {"params": params})
-        both = (td["demand_linehaul"][:, 1:] > 0) & (td["demand_backhaul"][:, 1:] > 0)
-        none_ = (td["demand_linehaul"][:, 1:] == 0) & (td["demand_backhaul"][:, 1:] == 0)
+            if bool((td[key].double() > vc + 1e-9).any()) or bool((td[key] < 0).any()):
+                V(ctx, "mtvrp-demand-above-vehicle-capacity", f"{key} outside [0, vehicle_capacity]", {"params": params})
+        lraw = (td["demand_linehaul"].double() * (cap if scale else 1.0)).round()
+        braw = (td["demand_backhaul"].double() * (cap if scale else 1.0)).round()
+        both = (lraw[:, 1:] > 0) & (braw[:, 1:] > 0)
+        none_ = (lraw[:, 1:] == 0) & (braw[:, 1:] == 0)
         if bool(both.any()) or bool(none_.any()):
             V(ctx, "mtvrp-customer-demand-kind", "a customer has both or neither of linehaul / backhaul demand", {"params": params})
+        # ranges: a linehaul value is a linehaul draw in [minD, maxD] or (backhaul removed) a backhaul draw in [minB, maxB]
+        okL = ((lraw >= minD) & (lraw <= maxD)) | ((lraw >= minB) & (lraw <= maxB)) | (lraw == 0)
+        okB = ((braw >= minB) & (braw <= maxB)) | (braw == 0)
+        if not bool(okL.all()) or not bool(okB.all()):
+            V(ctx, "mtvrp-demand-out-of-range", "integer demand outside the configured ranges", {"params": params})
         d0 = (td["locs"] - td["locs"][:, :1]).norm(dim=-1).double()
         for bi in range(B):
             o = bool(td["open_route"][bi].item())
@@ -800,24 +922,29 @@ def tw_mtvrp(ctx, taped: bool):
             bk = bool((td["demand_backhaul"][bi] > 0).any())
             keep_min = f"{int(o)}{int(twf)}{int(lf)}{int(bk)}"
             keep_max = f"{int(o)}{int(twf)}{int(lf)}1"
-            if not (preset_allows(preset, keep_min) or preset_allows(preset, keep_max)):
+            if preset is None:
+                if keep_max != "1111":
+                    V(ctx, "mtvrp-features-inconsistent-with-preset", f"subsample=False: instance has features O,TW,L,B = {keep_min}", {"params": params, "row": bi})
+            elif not (preset_allows(preset, keep_min) or preset_allows(preset, keep_max)):
                 V(ctx, "mtvrp-features-inconsistent-with-preset",
                               f"preset {preset!r}: instance has features O,TW,L,B = {keep_min}", {"params": params, "row": bi})
             ctx.count(f"mtvrp:features:{keep_min}")
             if twf:
                 sv = td["service_time"][bi].double()
                 st, en = tw[:, 0], tw[:, 1]
-                tol = 1e-5
-                bad = (~(st < en)) | (d0[bi] > en + tol) | (en + sv + d0[bi] > 4.6 + tol)
+                tol = 1e-5 * max(1.0, Tmax)
+                dv = d0[bi] / speed
+                bad = (~(st < en)) | (dv > en + tol) | (en + sv + dv > Tmax + tol)
                 bad[0] = False
                 if bool(bad.any()):
                     j = int(bad.nonzero()[0])
                     V(ctx, "mtvrp-window-not-wf", f"window [{st[j].item():.5f},{en[j].item():.5f}] service {sv[j].item():.5f} "
-                                  f"dist {d0[bi, j].item():.5f}: not ordered / unreachable / no time to return", {"params": params, "row": bi, "j": j})
-                if abs(tw[0, 1].item() - 4.6) > 1e-6 or tw[0, 0].item() != 0:
+                                  f"travel time {dv[j].item():.5f} (speed {speed}), max_time {Tmax}: not ordered / unreachable / no time to return",
+                      {"params": params, "row": bi, "j": j})
+                if abs(tw[0, 1].item() - Tmax) > 1e-5 or tw[0, 0].item() != 0:
                     V(ctx, "mtvrp-depot-window", "depot window is not [0, max_time]", {"params": params})
-            if lf and bool((2 * d0[bi] >= td["distance_limit"][bi].item()).any()):
-                V(ctx, "mtvrp-distance-limit-too-low", "a customer cannot be served within the distance limit", {"params": params})
+            if lf and (abs(td["distance_limit"][bi].item() - limit) > 1e-6 or bool((2 * d0[bi] >= td["distance_limit"][bi].item()).any())):
+                V(ctx, "mtvrp-distance-limit-too-low", "distance limit differs from the configured one or a customer cannot be served within it", {"params": params})
         ctx.case(("mtvrp-real", n, preset, seed))
 
 
@@ -921,6 +1048,8 @@ def run_atsp(ctx):
                                   {"params": params, "entries": ent})
                 if not tmat:
                     ctx.count("atsp:raw-triangle-holds" if rs[0]["tri"] == "1" else "atsp:raw-triangle-fails")
+            ctx.sample({"case": "ATSPGenerator on taped draws vs Gen.Atsp.gen", "params": params, "raw_entries(ticks)": ent[:6], "model_out(ticks)": model[:6],
+                        "real_out(ticks)": real[:6], "triangle_ok": rs[0]["tri"]}, cap=2)
             ctx.case(("atsp-tape", n, tmat, mn, mx, tuple(e["k"][:8])))
         else:
             n = rng.choice([2, 3, 5, 10, 20, 50])
@@ -1059,6 +1188,8 @@ def sched_fjsp(ctx, taped: bool):
         if same and (tp.log[3]["lo"], tp.log[3]["hi"]) != (mn_pt, mx_pt):
             ctx.disagreement("fjsp: range of proc_time_means", {"params": params, "lo": tp.log[3]["lo"], "hi": tp.log[3]["hi"]})
         sched_wf(ctx, "fjsp", td, params, mn_pt, mx_pt)
+        ctx.sample({"case": "FJSPGenerator on taped draws vs Gen.Sched (op ids, eligibility, processing times)", "params": params, "n_ope_per_job": n_ope[0],
+                    "start/end": [td["start_op_per_job"][0].tolist(), td["end_op_per_job"][0].tolist()], "proc_times_op0": td["proc_times"][0, :, 0].tolist()}, cap=1)
         ctx.case(("fjsp-tape", J, M, a, b, mn_pt, mx_pt, same, tuple(e_n["v"][:6])))
     else:
         seed = rng.randrange(1 << 30)
@@ -1121,6 +1252,8 @@ def sched_jssp(ctx, taped: bool):
             if real != ints(r["col"]):
                 ctx.disagreement("jssp: proc_times column vs Gen.Sched.jsspColumn", {"params": params, "row": bi, "op": op, "real": real, "model": r["col"]})
         sched_wf(ctx, "jssp", td, params, mn_pt, mx_pt, one_machine=True)
+        ctx.sample({"case": "JSSPGenerator on taped draws vs Gen.Sched.jsspColumn", "params": params, "n_ope_per_job": n_ope[0],
+                    "proc_times_op0": td["proc_times"][0, :, 0].tolist()}, cap=1)
         ctx.case(("jssp-tape", J, M, one2one, a, b, tuple(tp.log[0]["v"][:6])))
     else:
         seed = rng.randrange(1 << 30)
@@ -1219,6 +1352,9 @@ def run_mcp(ctx):
             dup = (srt[..., 1:] == srt[..., :-1]) & (srt[..., 1:] > 0)
             if bool(dup.any()):
                 V(ctx, "mcp-duplicate-item-in-set", "a set lists an item twice", {"params": params})
+        if taped and err is None:
+            ctx.sample({"case": "MCPGenerator on taped draws vs Gen.mcpRow (rows as multisets)", "params": params, "set_sizes": sizes[:4],
+                        "items_row0": items_e["v"][:m], "model_row0": reps[0].get("row"), "real_row0": td["membership"].reshape(B * n_sets, -1)[0].tolist()}, cap=2)
         ctx.case(("mcp", taped, n_items, n_sets, mn, mx, seed if not taped else tuple(tp.log[0]["k"][:5]) if tp.log else 0))
 
 
@@ -1229,17 +1365,24 @@ def run_mcp(ctx):
 SOLV_PARAMS = {
     "tsp": [dict(num_loc=5), dict(num_loc=20)],
     "atsp": [dict(num_loc=5), dict(num_loc=12, tmat_class=False)],
-    "cvrp": [dict(num_loc=7), dict(num_loc=20), dict(num_loc=13, capacity=10.0), dict(num_loc=33)],
+    "cvrp": [dict(num_loc=7), dict(num_loc=20), dict(num_loc=13, capacity=10.0), dict(num_loc=33),
+             dict(num_loc=9, min_demand=3, max_demand=7, capacity=7.0, min_loc=2.0, max_loc=3.0, depot_distribution="center")],
     "sdvrp": [dict(num_loc=7), dict(num_loc=20)],
-    "cvrptw": [dict(num_loc=7), dict(num_loc=20, scale=True), dict(num_loc=13, max_loc=100.0, max_time=300)],
-    "op": [dict(num_loc=7), dict(num_loc=20), dict(num_loc=33)],
+    "cvrptw": [dict(num_loc=7), dict(num_loc=20, scale=True), dict(num_loc=13, max_loc=100.0, max_time=300),
+               dict(num_loc=9, min_loc=50.0, max_loc=150.0, max_time=300, min_demand=2, max_demand=4, capacity=8.0)],
+    "op": [dict(num_loc=7), dict(num_loc=20), dict(num_loc=33), dict(num_loc=9, prize_type="const", max_length=1.5),
+           dict(num_loc=9, prize_type="unif")],
     "pctsp": [dict(num_loc=7), dict(num_loc=20)],
     "spctsp": [dict(num_loc=7), dict(num_loc=20)],
     "pdp": [dict(num_loc=6), dict(num_loc=7), dict(num_loc=20)],
     "mtsp": [dict(num_loc=7, min_num_agents=2, max_num_agents=3), dict(num_loc=12, min_num_agents=1, max_num_agents=5)],
     "svrp": [dict(num_loc=7), dict(num_loc=15, tech_costs=[1])],
     "mdcpdp": [dict(num_loc=6, num_depot=1), dict(num_loc=8, num_depot=2), dict(num_loc=10, num_depot=3, depot_mode="single")],
-    "mtvrp": [dict(num_loc=7, variant_preset=p) for p in MTVRP_PRESETS],
+    "mtvrp": [dict(num_loc=7, variant_preset=p) for p in MTVRP_PRESETS] + [
+        dict(num_loc=7, variant_preset="vrptw", speed=2.0), dict(num_loc=9, variant_preset="ovrpbltw", speed=0.5, max_time=8.0),
+        dict(num_loc=7, variant_preset="vrpbltw", max_loc=0.5, distance_limit=4.0, capacity=16.0, max_demand=5),
+        dict(num_loc=7, variant_preset="vrpltw", speed=4.0, max_time=6.0, scale_demand=False),
+        dict(num_loc=6, variant_preset=None, subsample=False, speed=2.0, backhaul_ratio=0.5)],
     "fjsp": [dict(num_jobs=3, num_machines=2, min_ops_per_job=1, max_ops_per_job=3), dict(num_jobs=5, num_machines=3)],
     "jssp": [dict(num_jobs=3, num_machines=3), dict(num_jobs=4, num_machines=2, min_ops_per_job=1, max_ops_per_job=3, one2one_ma_map=False)],
     "ffsp": [dict(num_job=3, num_machine=2, num_stage=2), dict(num_job=5, num_machine=3, num_stage=3)],
@@ -1330,6 +1473,9 @@ def run_solvable(ctx):
                         key += ":single-technician:index-out-of-bounds"   # the one listed environment defect; anything else stays unlisted
                     V(ctx, key, f"mask-confined episode ({policy} policy) on a generated {name} instance: {status} "
                                 f"after {steps} steps ({row})", dict(witness, policy=policy))
+                if rep == 0 and gp is plist[-1]:
+                    ctx.sample({"case": "mask-confined episode on generated instances", "env": name, "generator_params": gp, "seed": seed, "policy": policy,
+                                "B": 3, "outcome": status, "steps": steps}, cap=3)
                 ctx.case(("solv", name, tuple(sorted((k, str(v)) for k, v in gp.items())), seed, policy))
 
 
@@ -1476,6 +1622,8 @@ def text_fjsp(ctx, tmp):
         if tdl["start_op_per_job"].dtype != td["start_op_per_job"].dtype:
             ctx.count("text:fjsp:index-dtype-changes-int64→float32")
         loaded.append(tdl)
+        ctx.sample({"case": "FJSP write → file → read vs Gen.Persist.fjspWrite / fjspRead", "source": src, "file_tokens": toks[:3],
+                    "read_back_equal_to_original": bool(same), "ops_per_job": n_ope}, cap=2)
         ctx.case(("fjsp-text", tuple(map(tuple, toks))))
     # behaviour: same masks along a fixed action list on original and re-read instances
     tdl_all = torch.cat(loaded, 0)
@@ -1542,6 +1690,7 @@ def text_jssp(ctx, tmp):
         if not bool(same):
             V(ctx, "jssp-text-roundtrip-content", "read(write(instance)) differs from the instance", {"lines": lines})
         loaded.append(tdl)
+        ctx.sample({"case": "JSSP file (written per Gen.Persist.jsspWrite) → read", "source": src, "lines": lines[:3], "read_back_equal_to_original": bool(same)}, cap=1)
         ctx.case(("jssp-text", tuple(map(tuple, lines))))
     with quiet():
         env = JSSPEnv(generator_params=dict(num_jobs=J, num_machines=M))
@@ -1672,6 +1821,9 @@ def run_npz(ctx):
                     V(ctx, f"npz-roundtrip-{name}", f"save_tensordict_to_npz → load_npz_to_tensordict changes the instance: {diff}",
                                   {"env": name, "generator_params": gp, "seed": seed})
                 ctx.count(f"npz:{name}:{'compressed' if compress else 'plain'}")
+                if name in ("cvrptw", "mtvrp"):
+                    ctx.sample({"case": "generator batch → save_tensordict_to_npz → load_npz_to_tensordict", "env": name, "generator_params": gp, "B": B,
+                                "compress": compress, "compared": "keys, dtypes, shapes, bit-equal values, batch_size", "difference": diff}, cap=2)
                 ctx.case(("npz", name, seed))
                 if name in ("fjsp", "jssp"):
                     continue  # their loaders read text directories (gen_text)
@@ -1732,6 +1884,62 @@ def run_npz(ctx):
                 if st != "done":
                     V(ctx, f"dataset-file-episode-{prob}", f"episode on a loaded {prob} dataset: {st}", {"problem": prob, "size": size})
                 ctx.case(("gendata", prob, dist, size, seed))
+        # 2b. datasets whose rows carry different capacities (two chunks with different tables, concatenated): the loaders must
+        #     normalise every row by its own capacity
+        from rl4co.data.generate_data import generate_vrp_data
+        for rep in range(ctx.budget(2, 10)):
+            size = rng.choice([10, 20])
+            np.random.seed(rng.randrange(1 << 30))
+            c1, c2 = rng.sample([16.0, 20.0, 30.0, 40.0, 64.0], 2)
+            with quiet():
+                parts = [generate_vrp_data(rng.choice([1, 2, 3]), size, capacities={size: c1}), generate_vrp_data(rng.choice([1, 2]), size, capacities={size: c2})]
+            if rng.random() < 0.5:
+                parts.reverse()
+            ds = {k: np.concatenate([p_[k] for p_ in parts], 0) for k in parts[0]}
+            fn = os.path.join(tmp, f"vrp_mixed_{rep}.npz")
+            np.savez(fn, **ds)
+            with quiet():
+                td = cat["cvrp"](num_loc=size).load_data(fn)
+            lines = [f"gen.loaddemand {int(ds['capacity'][r_])} 1 | " + " ".join(str(int(x)) for x in ds["demand"][r_]) for r_ in range(len(ds["capacity"]))]
+            for r_, mr in enumerate(ask(ctx, lines)):
+                model = [Fraction(*map(int, t.split("/"))) for t in mr["demand"].split(",")]
+                exp = [float(np.float32(m.numerator) / np.float32(m.denominator)) if m.denominator != 1 else float(m) for m in model]
+                exp = [float(np.float32(int(x)) / np.float32(ds["capacity"][r_])) for x in ds["demand"][r_]]
+                real = td["demand"][r_].tolist() if td["demand"].dim() == 2 else None
+                if real is None or any(abs(a_ - float(m)) > 1e-6 for a_, m in zip(real, model)):
+                    V(ctx, "cvrp-load-data-per-row-capacity", f"CVRPEnv.load_data: row {r_} (capacity {ds['capacity'][r_]}) is not demand / its own capacity "
+                      f"(capacities in the file: {sorted(set(ds['capacity'].tolist()))})",
+                      {"size": size, "capacities": ds["capacity"].tolist(), "row": r_, "raw": ds["demand"][r_].tolist()[:5], "loaded": (real or [])[:5],
+                       "model": [float(m) for m in model[:5]]})
+                    break
+                if real != exp:
+                    ctx.disagreement("cvrp: load_data demand (per-row capacity) vs float32(d)/float32(cap)", {"row": r_})
+            ctx.count("npz:vrp-mixed-capacities")
+            ctx.sample({"case": "dataset file with per-row capacities → CVRPEnv.load_data", "capacity": ds["capacity"].tolist(), "raw_demand_row0": ds["demand"][0].tolist()[:4],
+                        "loaded_row0": td["demand"][0].flatten().tolist()[:4], "model": "Gen.Persist.loadDemand: d / capacity of the same row"}, cap=1)
+            ctx.case(("vrp-mixed", size, c1, c2, rep))
+            # MTVRP: unscaled generator batches with different capacities, saved with the generator's own `save_data`, loaded with scale=True / False
+            from rl4co.envs.routing.mtvrp.generator import MTVRPGenerator
+            seed_all(rng.randrange(1 << 30))
+            with quiet():
+                tds = [MTVRPGenerator(num_loc=size, variant_preset="all", scale_demand=False, capacity=c_)([rng.choice([1, 2])]) for c_ in (c1, c2)]
+            tdm = torch.cat(tds, 0)
+            fn2 = os.path.join(tmp, f"mtvrp_mixed_{rep}.npz")
+            MTVRPGenerator.save_data(tdm, fn2)
+            envm = cat["mtvrp"](num_loc=size, variant_preset="all")
+            with quiet():
+                raw_back = envm.load_data(fn2)
+                scaled = envm.load_data(fn2, scale=True)
+            d_ = td_equal(tdm, raw_back)
+            if d_:
+                V(ctx, "mtvrp-load-data-changes-batch", f"MTVRPEnv.load_data(scale=False) changes a saved batch: {d_}", {"size": size})
+            for key in ("demand_linehaul", "demand_backhaul"):
+                exp = tdm[key] / tdm["capacity_original"]
+                if tuple(scaled[key].shape) != tuple(exp.shape) or not torch.equal(scaled[key], exp):
+                    V(ctx, "mtvrp-load-data-per-row-capacity", f"MTVRPEnv.load_data(scale=True): {key} is not demand / capacity_original of the same row",
+                      {"size": size, "capacities": tdm["capacity_original"].flatten().tolist()})
+            ctx.count("npz:mtvrp-mixed-capacities")
+            ctx.case(("mtvrp-mixed", size, c1, c2, rep))
         # 3. shipped dataset files under /repo/data
         droot = os.path.join(rl.REPO if hasattr(rl, "REPO") else "/repo", "data")
         envof = {"tsp": "tsp", "vrp": "cvrp", "pctsp": "pctsp", "op": "op", "pdp": "pdp", "atsp": "atsp"}
@@ -1839,12 +2047,25 @@ def run_pickle(ctx):
                 if td_equal(a, b):
                     V(ctx, f"env-{how}-generator-output", "original and copy generate different batches from the same seed", {"env": name})
                 ctx.count(f"pickle:{how}:{name}")
+                if name in ("cvrp", "fjsp"):
+                    ctx.sample({"case": f"{how} of an environment", "env": name, "generator_params": gp, "steps_replayed": len(steps),
+                                "compared": ["rng state", "plain attributes", "generator params", "masks along the action list", "reward", "generator output under same seed"]}, cap=3)
                 ctx.case((how, name, seed, len(steps)))
 
 
 # =================================================================================================
 # C19 gen_ckpt: Lightning checkpoints of REINFORCE × {no, exponential, rollout, critic}
 # =================================================================================================
+
+def sd_equal(a, b):
+    """state dicts equal key by key; returns a description of the first difference"""
+    if set(a) != set(b):
+        return f"keys differ: only in original {sorted(set(a) - set(b))[:3]}, only in restored {sorted(set(b) - set(a))[:3]}"
+    for k in a:
+        if a[k].shape != b[k].shape or not torch.equal(a[k], b[k]):
+            return f"tensor {k} differs"
+    return None
+
 
 def run_ckpt(ctx):
     import warnings
@@ -1859,22 +2080,29 @@ def run_ckpt(ctx):
 
     rng = ctx.rng
     out = tempfile.mkdtemp(prefix="gen_ckpt_")
+    # (baseline, baseline_kwargs, epochs): `bl_alpha = 0` never replaces the rollout baseline's policy, so after training it
+    # differs from the actor; `n_epochs = 3` leaves the warm-up weight strictly between 0 and 1 after 2 epochs
+    kinds = [("no", {}, 2), ("exponential", {"beta": 0.5}, 2), ("rollout", {"bl_alpha": 0.0}, 3), ("critic", {}, 2),
+             ("warmup", {"n_epochs": 3, "bl_alpha": 0.0}, 2)]
+    # (`rollout_only` cannot be trained at all: RL4COLitModule.setup wraps the dataset before the baseline's own setup created its policy)
     try:
-        combos = [("tsp", bl) for bl in ("no", "exponential", "rollout", "critic")]
+        combos = [("tsp", k) for k in kinds]
         if ctx.tier != "quick":
-            combos += [("cvrp", bl) for bl in ("no", "exponential", "rollout", "critic")]
-        for envname, bl in combos:
+            combos += [("cvrp", k) for k in kinds] + [("tsp", ("rollout", {}, 2)), ("tsp", ("mean", {}, 2)), ("tsp", ("shared", {}, 2))]
+        for envname, (bl, blkw, epochs) in combos:
             seed = rng.randrange(1 << 30)
             seed_all(seed)
+            hp = dict(batch_size=rng.choice([4, 8]), val_batch_size=8, test_batch_size=8, train_data_size=16, val_data_size=8, test_data_size=8,
+                      optimizer_kwargs={"lr": rng.choice([1e-3, 5e-3])})
+            num_loc = rng.choice([5, 6, 7])
             with quiet():
-                env = (TSPEnv if envname == "tsp" else CVRPEnv)(generator_params=dict(num_loc=6))
+                env = (TSPEnv if envname == "tsp" else CVRPEnv)(generator_params=dict(num_loc=num_loc))
                 policy = AttentionModelPolicy(env_name=envname, embed_dim=16, num_encoder_layers=1, num_heads=2, feedforward_hidden=16)
                 baseline = bl
                 if bl == "critic":
                     baseline = CriticBaseline(CriticNetwork(copy.deepcopy(policy.encoder), embed_dim=16, hidden_dim=16))
-                model = REINFORCE(env, policy, baseline=baseline, batch_size=8, val_batch_size=8, test_batch_size=8,
-                                  train_data_size=16, val_data_size=8, test_data_size=8, optimizer_kwargs={"lr": 1e-3})
-                tr = RL4COTrainer(max_epochs=2, accelerator="cpu", devices=1, logger=False, enable_checkpointing=False, enable_progress_bar=False,
+                model = REINFORCE(env, policy, baseline=baseline, baseline_kwargs=blkw if isinstance(baseline, str) else {}, **hp)
+                tr = RL4COTrainer(max_epochs=epochs, accelerator="cpu", devices=1, logger=False, enable_checkpointing=False, enable_progress_bar=False,
                                   enable_model_summary=False, default_root_dir=out, num_sanity_val_steps=0)
                 tr.fit(model)
                 path = os.path.join(out, f"{envname}_{bl}.ckpt")
@@ -1883,7 +2111,8 @@ def run_ckpt(ctx):
             model.policy.eval()
             with torch.no_grad():
                 o1 = model.policy(td.clone(), env, decode_type="greedy")
-            witness = {"env": envname, "baseline": bl, "seed": seed, "torch": torch.__version__}
+            witness = {"env": envname, "num_loc": num_loc, "baseline": bl, "baseline_kwargs": blkw, "epochs": epochs, "seed": seed, "torch": torch.__version__}
+            ctx.count(f"ckpt:{bl}")
             # (a) the public API as is
             loaded = None
             try:
@@ -1908,15 +2137,47 @@ def run_ckpt(ctx):
                     torch.load = _orig
             if loaded is None:
                 continue
+            # --- actor
             loaded.policy.eval()
             with torch.no_grad():
                 o2 = loaded.policy(td.clone(), loaded.env, decode_type="greedy")
             if not torch.equal(o1["actions"], o2["actions"]) or not torch.equal(o1["reward"], o2["reward"]):
                 V(ctx, "ckpt-policy-differs", "restored policy gives other greedy solutions / rewards", witness)
-            sd1, sd2 = model.policy.state_dict(), loaded.policy.state_dict()
-            if set(sd1) != set(sd2) or any(not torch.equal(sd1[k], sd2[k]) for k in sd1):
-                V(ctx, "ckpt-policy-weights-differ", "restored policy weights differ", witness)
-            # baseline: what it computes on the same (state, reward)
+            diff = sd_equal(model.policy.state_dict(), loaded.policy.state_dict())
+            if diff:
+                V(ctx, "ckpt-policy-weights-differ", f"restored policy weights differ: {diff}", witness)
+            # --- every module parameter / buffer of the baseline (rollout policy, critic): saved vs restored
+            sd_b1, sd_b2 = model.baseline.state_dict(), loaded.baseline.state_dict()
+            diff = sd_equal(sd_b1, sd_b2)
+            actor_ne_baseline = None
+            inner1, inner2 = model.baseline, loaded.baseline
+            while hasattr(inner1, "baseline") and hasattr(inner2, "baseline"):   # unwrap WarmupBaseline (possibly nested)
+                inner1, inner2 = inner1.baseline, inner2.baseline
+            if hasattr(inner1, "policy"):
+                actor_ne_baseline = sd_equal(model.policy.state_dict(), inner1.policy.state_dict()) is not None
+                ctx.count(f"ckpt:{bl}:saved-baseline-policy-{'differs-from' if actor_ne_baseline else 'equals'}-actor")
+                inner1.policy.eval(); inner2.policy.eval()
+                with torch.no_grad():
+                    g1 = inner1.policy(td.clone(), env, decode_type="greedy")
+                    g2 = inner2.policy(td.clone(), loaded.env, decode_type="greedy")
+                if not torch.equal(g1["actions"], g2["actions"]) or not torch.equal(g1["reward"], g2["reward"]):
+                    V(ctx, f"ckpt-baseline-policy-differs:{bl}", "the restored baseline policy gives other greedy solutions than the saved baseline policy"
+                      + (" (it equals the restored actor)" if torch.equal(g2["actions"], o2["actions"]) and not torch.equal(g1["actions"], o1["actions"]) else ""), witness)
+            if diff:
+                V(ctx, f"ckpt-baseline-weights-differ:{bl}", f"state_dict of the restored baseline differs from the saved one: {diff}", witness)
+            # --- hyper-parameters that do not live in tensors
+            h1 = {k: v for k, v in dict(model.hparams).items() if isinstance(v, (int, float, str, bool, dict, type(None)))}
+            h2 = {k: v for k, v in dict(loaded.hparams).items() if isinstance(v, (int, float, str, bool, dict, type(None)))}
+            if h1 != h2 or model.data_cfg != loaded.data_cfg:
+                V(ctx, "ckpt-hparams-differ", f"restored hyper-parameters differ: {[k for k in h1 if h1.get(k) != h2.get(k)][:4]}", witness)
+            ga = {k: v for k, v in env.generator.__dict__.items() if isinstance(v, (int, float, str, bool, type(None)))}
+            gb = {k: v for k, v in loaded.env.generator.__dict__.items() if isinstance(v, (int, float, str, bool, type(None)))}
+            if ga != gb or type(loaded.env) is not type(env):
+                V(ctx, "ckpt-env-differs", "restored environment / generator parameters differ", witness)
+            for attr in ("train_decode_type", "val_decode_type", "test_decode_type"):
+                if getattr(model.policy, attr, None) != getattr(loaded.policy, attr, None):
+                    V(ctx, "ckpt-policy-decode-type-differs", f"{attr} differs after restore", witness)
+            # --- baseline: what it computes on the same (state, reward) — scalars `v`, `alpha`, … included
             td2 = env.reset(env.generator([5]))
             rew = o1["reward"].clone()
             try:
@@ -1936,6 +2197,10 @@ def run_ckpt(ctx):
                                   f"plain attributes (original, restored): {state}", witness)
             except Exception as e:  # noqa: BLE001
                 V(ctx, f"ckpt-baseline-eval-raises:{bl}", f"{type(e).__name__}: {str(e)[:150]}", witness)
+            ctx.sample({"case": "Lightning checkpoint save → REINFORCE.load_from_checkpoint", "env": envname, "num_loc": num_loc, "baseline": bl,
+                        "baseline_kwargs": blkw, "epochs": epochs, "compared": ["greedy actions/rewards of the actor", "actor state_dict",
+                        "baseline state_dict", "baseline policy greedy actions", "hparams/data_cfg/env generator", "baseline.eval(td, reward)"],
+                        "saved_baseline_policy_differs_from_actor": actor_ne_baseline, "greedy_reward": [round(x, 4) for x in o1["reward"][:2].tolist()]}, cap=2)
             ctx.case(("ckpt", envname, bl, seed))
     finally:
         shutil.rmtree(out, ignore_errors=True)
@@ -1976,7 +2241,9 @@ register(Unit("C18", "gen_routing", run_routing, drivers=["drv_gen"], lean_modul
                   T("Rl4co.Gen.pdp_pairing", "proved", "pickup i ↦ delivery i+N/2 is a bijection {1..N/2} → {N/2+1..N}"),
               ],
               assumptions=[GEN_NOTE, PARAM_NOTE,
-                           "special samplers (cluster, mixed, gaussian mixture …) and mTSP/MDCPDP/FFSP/SMTWTP/FLP ranges: correspondence + sampled ranges only"]))
+                           "special samplers (cluster, mixed, gaussian mixture …) and mTSP/MDCPDP/FFSP/SMTWTP/FLP ranges: correspondence + sampled ranges only; "
+                           "the special samplers are defined on the unit square whatever min_loc/max_loc say and are checked against [0,1] for every generator that "
+                           "takes loc_distribution, with the Gaussian draws steered ±6…±40 σ into the tails (Tape.tail) instead of i.i.d. sampling"]))
 register(Unit("C18", "gen_tw", run_tw, drivers=["drv_gen"], lean_modules=[P18 + "Cvrptw", P18 + "Mtvrp", P18 + "Tables"],
               theorems=[
                   T("Rl4co.Gen.Cvrptw.cvrptw_window", "proved", "steps 4–7: window ordered, ≥ 0, reachable from the depot, leaves time to return, for all draws (2·dist+1 ≤ max_time, durations 0)"),
@@ -2053,5 +2320,8 @@ register(Unit("C19", "gen_pickle", run_pickle, drivers=["drv_gen"], lean_modules
               theorems=[T("Rl4co.Gen.Persist.setstate_getstate", "proved", "__setstate__ ∘ __getstate__ = id on the attribute record incl. the generator state")],
               assumptions=[PERSIST_NOTE, "env.rng is torch's global default generator (torch.manual_seed returns it): unpickling rewinds the global RNG — counted, not a violation of C19"]))
 register(Unit("C19", "gen_ckpt", run_ckpt, drivers=["drv_gen"], lean_modules=[P19],
-              theorems=[], assumptions=[PERSIST_NOTE, "checkpoints: tiny AttentionModel (embed 16, 1 layer), CPU, 2 epochs of 16 instances, tmp dir removed; "
-                                        "no theorem: correspondence only"], weight=3.0))
+              theorems=[], assumptions=[PERSIST_NOTE, "checkpoints: tiny AttentionModel (embed 16, 1 layer), CPU, 2–3 epochs of 16 instances, tmp dir removed; "
+                                        "no theorem: correspondence only. Baselines no / exponential / rollout (bl_alpha=0: saved baseline policy ≠ actor) / critic / "
+                                        "warmup(n_epochs=3: fractional alpha); compared after restore: actor weights and greedy solutions, baseline state_dict, baseline "
+                                        "policy greedy solutions, hparams / data_cfg / env generator parameters, baseline.eval on a fixed (state, reward). "
+                                        "`rollout_only` cannot be trained (setup wraps the dataset before the baseline has a policy) and is not covered"], weight=3.0))
